@@ -10,6 +10,7 @@ import (
 	"sort"
 	"strconv"
 	"strings"
+	"time"
 
 	"golang.org/x/tools/go/ssa"
 )
@@ -474,9 +475,21 @@ func (e *Exec) assertTerm(st *State, id string, c *Term, msg string) []Outcome {
 	if len(h.Obligations) < 400 {
 		h.Obligations = append(h.Obligations, Obligation{h.Name, id, r, len(st.pc), ms})
 	}
-	if e.xsol != nil && (r == "sat" || r == "unsat") {
+	if e.xsol != nil && (r == "sat" || r == "unsat") && time.Now().Before(e.deadline) && e.xsolSpent < 300*time.Second {
+		x0 := time.Now()
 		// second opinion (thorough tier): the same obligation is sent to a different solver
-		r2 := e.xsol.Check(q)
+		// hard limit from our side as well: z3 4.8.12 does not always honour its own :timeout on these goals
+		xs := e.xsol
+		ans := make(chan string, 1)
+		go func() { ans <- xs.Check(q) }()
+		r2 := "unknown"
+		select {
+		case r2 = <-ans:
+		case <-time.After(25 * time.Second):
+			xs.Close()
+			e.xsol = nil // no further cross-checking in this harness
+		}
+		e.xsolSpent += time.Since(x0)
 		h.CrossChecked++
 		if (r2 == "sat" || r2 == "unsat") && r2 != r {
 			h.CrossDisagree++
